@@ -300,8 +300,8 @@ def main():
             small, g2, e2, w2 = c, got, exp, who
         kf = mod.known_finding(small, g2, e2, known) if hasattr(mod, "known_finding") else None
         if kf:
-            seen_known.setdefault(kf["id"], (kf, small, g2, e2))
-            continue
+            # shrinking walked into a recorded finding; the failure that was found is a different one: report it as found
+            small, g2, e2, w2 = c, got, exp, who
         key = json.dumps(small, sort_keys=True, default=str)
         if key in seen_keys:
             continue
